@@ -342,9 +342,16 @@ func (e *diskEngine) sweepNode(w *World, n *Node, st *State, dc *DiskCase, stats
 	}
 	stats.OracleChecks["disk_instances"]++
 	stats.Reach[fmt.Sprintf("stream_%s", n.cfg.Kind)]++
+	// Map forests on the shipped Go maps serialize in the runtime's random map
+	// order: their stream bytes (and which record an offset falls into) are not
+	// replayable, so they stay out of the digest and a failure found on them is
+	// pinned to (instance, fault kind) only: the replay sweeps all offsets again.
+	ordered := n.pol != nil || n.cfg.DetMaps
 	dg := uint64(len(data))
-	for _, b := range data {
-		dg = (dg ^ uint64(b)) * 1099511628211
+	if ordered {
+		for _, b := range data {
+			dg = (dg ^ uint64(b)) * 1099511628211
+		}
 	}
 	base := e.observe(orig, n, st, seed)
 	// (i) reader chunkings
@@ -379,10 +386,13 @@ func (e *diskEngine) sweepNode(w *World, n *Node, st *State, dc *DiskCase, stats
 	// (ii) every strict prefix
 	if want("prefix") {
 		for _, cut := range offs {
-			if only != nil && only.Arg != cut {
+			if only != nil && only.Arg >= 0 && only.Arg != cut {
 				continue
 			}
 			fl := DiskFault{Node: n.idx, Kind: "prefix", Arg: cut}
+			if !ordered {
+				fl.Arg = -1
+			}
 			mode := 0
 			if cut%3 == 1 {
 				mode = 4 // the last bytes arrive together with io.EOF
@@ -401,17 +411,22 @@ func (e *diskEngine) sweepNode(w *World, n *Node, st *State, dc *DiskCase, stats
 					stats.Reach["prefix_accepted_equal"]++
 				}
 			}
-			dg = mix64(dg ^ uint64(cut)<<1 ^ b2u(err != nil))
+			if ordered {
+				dg = mix64(dg ^ uint64(cut)<<1 ^ b2u(err != nil))
+			}
 		}
 	}
 	// (iii) failing sink at every offset
 	if want("wfail") {
 		for _, lim := range offs {
 			for _, partial := range []bool{false, true} {
-				if only != nil && (only.Arg != lim || only.Partial != partial) {
+				if only != nil && only.Arg >= 0 && (only.Arg != lim || only.Partial != partial) {
 					continue
 				}
 				fl := DiskFault{Node: n.idx, Kind: "wfail", Arg: lim, Partial: partial}
+				if !ordered {
+					fl.Arg = -1
+				}
 				fw := &failWriter{limit: lim, partial: partial}
 				var c2 int64
 				err, pan := guard(func() error { var e2 error; c2, e2 = orig.write(fw); return e2 })
